@@ -1,21 +1,26 @@
 ------------------------------ MODULE Compound ------------------------------
 (* C15: taskpools combined with parsec_compose run strictly one after another and the compound completes exactly
-   once, after the last one.  Abstract specification (the property) and, in CompoundImpl, the implementation-shaped
+   once, after the last one.  Abstract specification (the property); CompoundImpl is the implementation-shaped
    model of compound.c that refines it.
 
-   NP taskpools, taskpool i has NT[i] tasks.  cur = the taskpool whose tasks may run. *)
+   The composition (nt = number of tasks of each member, 0 = a taskpool with nothing to do on this process) is chosen
+   by the initial state among Layouts, so that one TLC run covers every layout.  cur = the member whose tasks may
+   run. *)
 EXTENDS Integers, Sequences, FiniteSets
-CONSTANTS NP, NT
-VARIABLES cur, state, cdone
-vars == <<cur, state, cdone>>
-Tasks == {t \in (1..NP) \X (1..3) : t[2] <= NT[t[1]]}
+CONSTANTS Layouts        \* set of sequences of naturals (tasks per member), each of length >= 1
+VARIABLES nt, cur, state, cdone
+vars == <<nt, cur, state, cdone>>
+NP == Len(nt)
+TasksOf(l) == {t \in (1..Len(l)) \X (1..3) : t[2] <= l[t[1]]}
+Tasks == TasksOf(nt)
 
-Init == cur = 1 /\ state = [t \in Tasks |-> "idle"] /\ cdone = 0
-TaskStart(t) == t[1] = cur /\ state[t] = "idle" /\ state' = [state EXCEPT ![t] = "run"] /\ UNCHANGED <<cur, cdone>>
-TaskEnd(t) == state[t] = "run" /\ state' = [state EXCEPT ![t] = "done"] /\ UNCHANGED <<cur, cdone>>
+Init == /\ nt \in Layouts /\ cur = 1 /\ cdone = 0
+        /\ state = [t \in TasksOf(nt) |-> "idle"]
+TaskStart(t) == t[1] = cur /\ state[t] = "idle" /\ state' = [state EXCEPT ![t] = "run"] /\ UNCHANGED <<nt, cur, cdone>>
+TaskEnd(t) == state[t] = "run" /\ state' = [state EXCEPT ![t] = "done"] /\ UNCHANGED <<nt, cur, cdone>>
 PoolDone == /\ cur <= NP /\ \A t \in Tasks : t[1] = cur => state[t] = "done"
-            /\ cur' = cur + 1 /\ UNCHANGED <<state, cdone>>
-CompoundDone == cur = NP + 1 /\ cdone = 0 /\ cdone' = 1 /\ UNCHANGED <<cur, state>>
+            /\ cur' = cur + 1 /\ UNCHANGED <<nt, state, cdone>>
+CompoundDone == cur = NP + 1 /\ cdone = 0 /\ cdone' = 1 /\ UNCHANGED <<nt, cur, state>>
 Finished == cdone = 1 /\ UNCHANGED vars
 Next == (\E t \in Tasks : TaskStart(t) \/ TaskEnd(t)) \/ PoolDone \/ CompoundDone \/ Finished
 Spec == Init /\ [][Next]_vars
